@@ -231,12 +231,16 @@ def relax (bonds : List WBond) (lab : List Nat) : List Nat :=
     let mn := min (l.getD e.a e.a) (l.getD e.b e.b)
     (l.set e.a mn).set e.b mn) lab
 
-def relaxN (bonds : List WBond) : Nat → List Nat → List Nat
+/-- relaxation passes until nothing changes (at most `fuel` of them) -/
+def relaxFix (bonds : List WBond) : Nat → List Nat → List Nat
   | 0, lab => lab
-  | k+1, lab => relaxN bonds k (relax bonds lab)
+  | k+1, lab =>
+    let lab' := relax bonds lab
+    if lab' == lab then lab else relaxFix bonds k lab'
 
-/-- component label of every atom: the smallest atom index of its component (after `natoms` passes) -/
-def compLabels (m : WMol) : List Nat := relaxN m.bonds m.natoms (List.range m.natoms)
+/-- component label of every atom: the smallest atom index of its component.  Every pass that changes something
+lowers the sum of the labels, which starts below `natoms²`: the fuel is never used up (`compLabels_fixed`). -/
+def compLabels (m : WMol) : List Nat := relaxFix m.bonds (m.natoms * m.natoms + 1) (List.range m.natoms)
 
 /-- distinct values in order of first occurrence -/
 def dedup : List Nat → List Nat
